@@ -187,6 +187,16 @@ def _work_texts(task):
     return acc
 
 
+def _disturb_task(_):
+    from ..explore import disturb
+
+    acc = Acc()
+    acc.count("disturbance_rounds", 9)
+    for core, detail in disturb.differential("printed-rewrite-results", disturb.printed_results_battery):
+        acc.violation(core, {"text": "", "trace": [], "mode": "disturb"}, detail)
+    return acc
+
+
 def run(tier, seed):
     N = 5 if tier == "quick" else 7
     depth = 1 if tier == "quick" else 2
@@ -210,7 +220,7 @@ def run(tier, seed):
     k = seed % len(tt)
     tt = tt[k:] + tt[:k]
     a2 = merge_all(par.pmap(_work_texts, tt))
-    acc = merge_all([a1, a2])
+    acc = merge_all([a1, a2, par.run_fresh(_disturb_task, None)])
     cov = {
         "evaluations": acc.n["roundtrips"],
         "distinct_nontrivial": len(acc.keys),
@@ -247,6 +257,9 @@ def replay(case):
 
 
 def _replay_direct(case):
+    if case.get("mode") == "disturb":
+        from ..explore import disturb
+        return disturb.differential("printed-rewrite-results", disturb.printed_results_battery)
     if case.get("mode") == "consume":
         return check_reparse_after_consumption(case["text"])
     roots = RW.run_trace(case["text"], case["trace"])
